@@ -322,6 +322,14 @@ class Prop:
                                  nodes=B.shape_to_nodes(shape, lambda i, dp, s: (i, None, None)))
                         if ok(d):
                             yield d
+        # typed trees go through the same Node.to_dict (the kind is not carried; from_dict builds a plain Tree)
+        for n in (2, 3):
+            for shape in H.forests(n):
+                for sm in ("none", "set"):
+                    d = dict(typed=True, univ=["s:a", "s:b", "e:1"], sm=sm,
+                             nodes=B.shape_to_nodes(shape, lambda i, dp, s: ((i + dp) % 3 if sm == "set" else (i + dp) % 2, "ab"[i % 2], None if i % 2 else f"t{i}")))
+                    if ok(d):
+                        yield d
         for prep in ("clear", "remove_tops", "clear_readd", "remove_kids"):
             for shape in H.forests(3):
                 d = dict(univ=["s:a", "s:b", "s:c"], nodes=B.shape_to_nodes(shape, lambda i, dp, s: (i, None, None)), sm="none", prep=prep)
